@@ -226,7 +226,10 @@ CLAIMS = {
         "the parent's record). The correspondence enumerates the whole matrix, incl. two children of one parent coming and "
         "going in every order, "
         "on both back-ends in both tiers. " + KERNEL_NOTE,
-        "The roll-back to inactive after a failing __aenter__ has no trigger from the public API: not exercised.",
+        "The roll-back to inactive after a failing __aenter__ has no trigger from the public API: not exercised. Three parts of "
+        "the check have no model side (implementation only): lookups by service tasks while the root waits for them, children "
+        "entered by teardown callbacks and never left, and a context whose parent is given as the context object a component "
+        "kept from start() (it is a child of the real context: reported when left open).",
         "8/C13",
     ),
     "C18": (
